@@ -33,6 +33,10 @@ func runC18(c *Ctx) {
 	ruleClosePair(c)
 	ruleLoopVar(c, "CLOSEPAIR", "service")
 	ruleSockOwned(c)
+	// "every socket the server created is gone": the association's owner closes the socket its own deletion returns, so
+	// nobody else may delete entries (shutdown only expires them)
+	ruleSoleDeleter(c)
+	ruleShutdown(c)
 	for _, m := range findMultiListeners(c, "CANCELPUMP") {
 		ruleCancelPump(c, m, "CANCELPUMP")
 		ruleClosedGuard(c, m) // a connection a handle has taken is returned, never dropped (leak)
